@@ -29,6 +29,12 @@ RULE = ('%d workloads that together call every public entry point (cfg_init with
         'every (workload, k) is non-trivial; exhaustive over k')
 
 
+import pwd as _pwd
+HOME_UP = '/..' * _pwd.getpwuid(os.geteuid()).pw_dir.rstrip('/').count('/')
+USER0 = _pwd.getpwuid(os.geteuid()).pw_name
+USER0_UP = HOME_UP
+
+
 def optloc(name):
     return '0:%d' % NAMES.index(name)
 
@@ -44,6 +50,9 @@ def workloads(sid):
     W['parse-file'] = init + ['@OOM', 'parse_file 0 %s' % hx('inc1.conf'), 'parse_fp 0 %s' % hx('i = 3\n')]
     W['parse-file-sp'] = init + ['@OOM', 'add_searchpath 0 %s' % hx('spdir'), 'add_searchpath 0 %s' % hx('~/nosuch'), 'searchpath 0 %s' % hx('inc1.conf'),
                                  'parse_file 0 %s' % hx('inc1.conf'), 'tilde %s' % hx('~/x'), 'tilde %s' % hx('~root/y'), 'tilde %s' % hx('plain')]
+    # a directory that is only reachable through its tilde form: what was stored is visible in the later look-ups
+    W['tilde-searchpath'] = init + ['@OOM', 'add_searchpath 0 %s' % hx('~' + HOME_UP + '@CWD@/spdir2'), 'searchpath 0 %s' % hx('only2.conf'), 'parse_file 0 %s' % hx('only2.conf'),
+                                    'add_searchpath 0 %s' % hx('~%s%s@CWD@/spdir2' % (USER0, USER0_UP)), 'searchpath 0 %s' % hx('only2.conf'), 'tilde %s' % hx('~%s/z' % USER0)]
     W['setters'] = init + ['@OOM', 'setint 0 %s 7' % hx('i'), 'setstr 0 %s %s' % (hx('s'), hx('new')), 'setstr 0 %s %s 2' % (hx('sl'), hx('app')), 'setint 0 %s 3 2' % hx('il'),
                            'setfloat 0 %s 0x1p1' % hx('f'), 'setbool 0 %s 0' % hx('b'), 'setstr 0 %s %s' % (hx('one|zs'), hx('by path')), 'setstr 0 %s %s' % (hx('sv'), hx('validated')),
                            'opt_setstr %s %s 0' % (optloc('s'), hx('direct'))]
@@ -107,7 +116,7 @@ def script(spec):
     if spec.get('gen'):
         return gen_script(spec)
     lines, sid = schema.emit_schema(DECLS)
-    L = ['mkdir %s' % hx('spdir')]
+    L = ['mkdir %s' % hx('spdir'), 'mkdir %s' % hx('spdir2'), 'mkfile %s %s' % (hx('spdir2/only2.conf'), hx('i = 22\n'))]
     for name, content in FILES.items():
         L.append('mkfile %s %s' % (hx(name), hx(content)))
         L.append('mkfile %s %s' % (hx('spdir/' + name), hx(content)))
@@ -167,6 +176,19 @@ def judge(spec, events, death):
         if claims_success and dumps != ref['dumps']:
             v.bad('alloc=%s:effect=silent-incomplete:during-%s' % (site, op), 'workload %s, allocation #%d (%s) fails during %s: the call returns success, yet the resulting tree differs from the fault-free run (it did not complete and did not say so)' % (
                 spec['w'], spec['k'], site, op))
+    # resolution results (cfg_tilde_expand, cfg_searchpath): NULL reports the failure; any other answer claims completion and must be the fault-free answer
+    if ref and hit is not None and 'paths' in ref:
+        norm = lambda h: None if h is None else re.sub(r'verif_run_\w+', 'RUNDIR', core.unhx(h))     # (every run has its own scratch directory)
+        got = [norm(x.get('v')) for x in events if x.get('ev') == 'path']
+        rcs = [(x.get('op'), x.get('rc')) for x in events if x.get('ev') == 'r']
+        refp = [norm(h) for h in ref['paths']]
+        if len(got) == len(refp) and rcs == ref['rcs']:
+            v.notes['resolution_results_compared'] = v.notes.get('resolution_results_compared', 0) + len(got)
+            for g_, r_ in zip(got, refp):
+                if g_ != r_ and g_ is not None:
+                    v.bad('alloc=%s:effect=silent-wrong-resolution:during-%s' % (site, events[hit]['op']), 'workload %s, allocation #%d (%s) fails during %s: every call reports success, yet a name resolves to %r instead of %r' % (
+                        spec['w'], spec['k'], site, events[hit]['op'], g_, r_))
+                    break
     bad_rc = [x for x in events if x.get('ev') == 'r' and x.get('rc') not in (0, -1, 1)]
     if bad_rc:
         v.bad('alloc=%s:effect=undocumented-return' % site, 'undocumented return value %r' % bad_rc[:2])
